@@ -353,6 +353,13 @@ let rec sx_stmt (s : stmt) : str =
       "(if " ^ sx_expr c ^ " " ^ sx_list b ^ " (" ^ S.concat " " (List.map (fun (c, b) -> "(elsif " ^ sx_expr c ^ " " ^ sx_list b ^ ")") eis) ^ ") " ^ sx_list els ^ ")"
   | TFor (v, a, b, st, body) ->
       "(for " ^ lname v ^ " " ^ sx_expr a ^ " " ^ sx_expr b ^ " " ^ (match st with Some e -> sx_expr e | None -> "-") ^ " " ^ sx_list body ^ ")"
+  | TCase (c, gs, els) ->
+      let sx_sel = function
+        | CsInt (neg, v) -> "i:" ^ (if neg then "-" else "") ^ dec_of_n v
+        | CsRange (n1, v1, n2, v2) ->
+            "(range i:" ^ (if n1 then "-" else "") ^ dec_of_n v1 ^ " i:" ^ (if n2 then "-" else "") ^ dec_of_n v2 ^ ")"
+        | CsEnum n -> "e:" ^ lname n in
+      "(case " ^ sx_expr c ^ " (" ^ S.concat " " (List.map (fun (ss, b) -> "(grp (" ^ S.concat " " (List.map sx_sel ss) ^ ") " ^ sx_list b ^ ")") gs) ^ ") " ^ sx_list els ^ ")"
   | TWhile (c, b) -> "(while " ^ sx_expr c ^ " " ^ sx_list b ^ ")"
   | TRepeat (b, c) -> "(repeat " ^ sx_list b ^ " " ^ sx_expr c ^ ")"
   | TExit -> "exit"
